@@ -191,10 +191,20 @@ class Base:
     def __len__(self):
         return self.n
 
+    FAIL_AT = [set()]  # global load numbers (positions among all loads of the run) at which the storage fails once
+
     def __getitem__(self, i):
         LOG.append(["load", _who(), int(i)])
+        n_loads = sum(1 for e in LOG if e[0] == "load")
         _yield("load")  # a slow load: others may run while the sample is being read
+        if n_loads in Base.FAIL_AT[0]:
+            LOG.append(["load-failed", _who(), int(i)])
+            raise InjectedLoadError(5, f"injected read error while loading sample {int(i)}")
         return payload(self.kind, int(i))
+
+
+class InjectedLoadError(OSError):
+    pass
 
 
 class Transform:
@@ -290,7 +300,8 @@ class Spec(core.PropSpec):
                     if ro.random() < 0.25:
                         ops.insert(k, ["retune", ro.choice([0, 10, 50, 100])])
         kills = [[ro.randrange(1, R), ro.randint(1, 12)]] if R > 1 and ro.random() < 0.25 else []
-        return dict(R=R, n=n, keys=keys, kind=rw.choice(KINDS), tf=tf, readers=readers, kills=kills,
+        fail_at = sorted({ro.randint(1, 8) for _ in range(ro.randint(1, 2))}) if ro.random() < 0.2 else []
+        return dict(R=R, n=n, keys=keys, kind=rw.choice(KINDS), tf=tf, readers=readers, kills=kills, fail_at=fail_at,
                     sched_seed=st("sched").getrandbits(32), choices=None)
 
     def shrink_candidates(self, plan):
@@ -304,6 +315,8 @@ class Spec(core.PropSpec):
             yield dict(plan, kind="int")
         if plan.get("kills"):
             yield dict(plan, kills=[])
+        if plan.get("fail_at"):
+            yield dict(plan, fail_at=[])
         yield from core.generic_candidates(plan, [["readers"], ["readers", "*"], ["choices"]], [(["n"], 1)])
 
     def execute(self, plan):
@@ -329,6 +342,7 @@ class Spec(core.PropSpec):
         sdd.Manager = SimManager
         del LOG[:]
         _PROXIES.clear()
+        Base.FAIL_AT[0] = set(plan.get("fail_at") or [])
         results = {}
         try:
             import os as _os0
@@ -393,6 +407,9 @@ class Spec(core.PropSpec):
                                 views[r].dispose()
                                 results[(r, k)] = ("ok", None)
                                 LOG.append(["ret", f"r{r}", k, None])
+                        except InjectedLoadError:
+                            results[(r, k)] = ("ioerr", None)
+                            LOG.append(["ioerr", f"r{r}", k])
                         except Exception as e:
                             results[(r, k)] = ("exc", e)
                             LOG.append(["exc", f"r{r}", k, type(e).__name__])
@@ -494,6 +511,14 @@ class Spec(core.PropSpec):
             elif e[0] == "tf":
                 if e[1] in cur:
                     cur[e[1]]["tfs"] += 1
+            elif e[0] == "load-failed":
+                if e[1] in cur and cur[e[1]]["loads"]:
+                    cur[e[1]]["loads"].pop()  # this load produced nothing that could have been stored
+                    cur[e[1]]["failed"] = True
+            elif e[0] == "ioerr":
+                a = cur.pop(e[1])
+                a["ret"] = None
+                a["exc"] = "ioerr"
             elif e[0] in ("ret", "exc"):
                 a = cur.pop(e[1])
                 a["ret"] = pos
@@ -506,6 +531,9 @@ class Spec(core.PropSpec):
             status, val = res_[0], res_[1]
             off = res_[2] if len(res_) > 2 else 0
             op = plan["readers"][r][k]
+            if status == "ioerr":
+                out.count("fault:transient_load_error")
+                continue
             if status == "exc":
                 what = op[0]
                 out.violate(f"C19:raises:{type(val).__name__}", f"{what},{site}", f"reader r{r} op {k} {op}: {type(val).__name__}: {val}")
@@ -557,7 +585,7 @@ class Spec(core.PropSpec):
                             f"get({a['idx']}) by {a['reader']} (events {a['inv']}..{a['ret']}) did not load although dispose by "
                             f"{c['reader']} ({c['inv']}..{c['ret']}) completed before and nobody re-loaded the sample since")
         # ---- sequential form: exactly one load per era in which the key is accessed -----------------
-        if R == 1 and not any(a["exc"] for a in acc.values()):
+        if R == 1 and not any(a["exc"] for a in acc.values()) and not plan.get("fail_at"):
             era_loaded = set()
             for a in sorted(acc.values(), key=lambda a: a["inv"]):
                 if a["op"] == "retune":
